@@ -150,6 +150,14 @@ fn small_values(thorough: bool) -> Vec<RV> {
         v.push(RV::kw(s));
     }
     v.push(RV::Bytes(vec![1, 2]));
+    // dialect-sensitive and peculiar names, as symbol and as keyword, in every syntactic position
+    // (seed C02-c: a dot-initial postfix keyword is misread in list position only)
+    let mut positioned = Vec::new();
+    for n in [".a", "..", "+.a", "-.", "-", "+", "...", "-a", "+a", "λ", "a.b", "a", "nil", "t", "a1", "?a"] {
+        positioned.extend(crate::domains::in_positions(&RV::sym(n)));
+        positioned.extend(crate::domains::in_positions(&RV::kw(n)));
+    }
+    v.extend(positioned);
     let atoms = if thorough { actx() } else { a12() };
     let mut extra = atoms.clone();
     extra.push(RV::Nil);
